@@ -16,7 +16,7 @@ RULE = (
     "and a drive strong enough to force refusals, adaptive on or off (also with dt_init == dt_max), terminal values 0 / None / non-zero, with/without screening and thermalisation; "
     "non-trivial = run in which >= 1 refusal/retry or >= 1 change of the proposed step was checked; distinct = distinct spec"
 )
-REQUIRED_COUNTERS = ["updates_checked", "attempt_sequence_checks", "proposal_rule_checks", "retries_seen", "exhaustions_seen", "proposal_changes", "recorded_dt_checks"]
+REQUIRED_COUNTERS = ["updates_checked", "attempt_sequence_checks", "proposal_rule_checks", "retries_seen", "exhaustions_seen", "proposal_changes", "recorded_dt_checks", "exact_budget_checks"]
 CASE_TIMEOUT = {"quick": 600, "thorough": 1500}
 ASSUMPTIONS = ["delta is recomputed from the psi passed to and returned by TDGLSolver.update (differences at rounding level tolerated: 1e-8 relative on the proposal)"]
 
@@ -102,6 +102,26 @@ def gen_cases(tier, seed):
                  save_every=10, field_units="mT", current_units="uA", output="file")
         drive = {"A": S.field_spec(rng, dev, o, "uniform", b=0.3), "currents": S.current_spec(rng, dev, o, "const", strength=0.2)}
         cases.append({"device": dev, "options": o, "drive": drive, "monitors": ["adaptive"], "kind": "options_reused", "cost": 8})
+    for j in range(2 if tier == "quick" else 6):
+        # the options of an earlier run, read back from its file (flags and numbers come back as numpy scalars), drive the next run
+        dev = zoo.gen_device(rng, n_terminals=int([0, 2][j % 2]), n_holes=0, probes=0, size="small", gamma=float([10.0, 1.0][j % 2]))
+        o = dict(adaptive=True, adaptive_window=int([5, 2][j % 2]), adaptive_time_step_multiplier=0.25, max_solve_retries=10, dt_init=1e-3, dt_max=0.1, solve_time=3.0,
+                 save_every=10, field_units="mT", current_units="uA", output="file")
+        drive = {"A": S.field_spec(rng, dev, o, "uniform", b=0.3), "currents": S.current_spec(rng, dev, o, "const", strength=0.2)}
+        cases.append({"device": dev, "options": o, "drive": drive, "monitors": ["adaptive"], "kind": "options_reloaded", "cost": 8})
+    for j in range(4 if tier == "quick" else 12):
+        # the retry budget is EXACTLY what the worst step needs (it succeeds on the last permitted retry), or one short of it:
+        # the first run must go through with the time steps of an unconstrained run, the second must raise
+        dev = zoo.gen_device(rng, n_terminals=0, n_holes=0, probes=0, size="small", gamma=float([10.0, 1.0][(j // 2) % 2]))
+        o = dict(adaptive=True, adaptive_window=int([1, 3][(j // 2) % 2]), adaptive_time_step_multiplier=float([0.5, 0.25, 0.7][(j // 2) % 3]), max_solve_retries=60,
+                 dt_init=float([0.1, 0.05][(j // 2) % 2]), dt_max=float([2.0, 1.0][(j // 2) % 2]), solve_time=10.0, save_every=10, field_units="mT", current_units="uA", output="file")
+        drive = {"A": S.field_spec(rng, dev, o, "uniform", b=0.6)}
+        if j % 2:
+            import copy
+
+            cases.append(dict(copy.deepcopy(cases[-1]), budget_offset=-2))  # the same problem, one retry fewer
+        else:
+            cases.append({"device": dev, "options": o, "drive": drive, "monitors": ["adaptive"], "kind": "exact_budget", "budget_offset": -1, "cost": 12})
     return cases
 
 
@@ -172,6 +192,22 @@ def run_case(spec):
         opts.adaptive = True
         opts.solve_time = want["solve_time"]
         run_kwargs = dict(device=device, options_obj=opts)
+    if spec["kind"] == "options_reloaded":
+        import tdgl
+
+        device, why = zoo.try_build_device(spec["device"])
+        if device is None:
+            return {"violations": [], "counters": {"refused_mesh": 1}, "classes": ["refused"], "nontrivial": False}
+        r0 = sim.run_sim(dict(spec, options=dict(spec["options"], solve_time=0.2)), [], device=device, keep_dir=True)
+        if r0.refused or r0.exception is not None or r0.solution is None:
+            return {"violations": [], "counters": {"refused_mesh": 1}, "classes": ["refused"], "nontrivial": False}
+        opts = tdgl.Solution.from_hdf5(r0.solution.path).options
+        opts.solve_time = spec["options"]["solve_time"]
+        r0.cleanup = lambda: None
+        import shutil
+
+        shutil.rmtree(r0.outdir, ignore_errors=True)
+        run_kwargs = dict(device=device, options_obj=opts)
     if spec["kind"] == "seeded":
         device, why = zoo.try_build_device(spec["device"])
         if device is None:
@@ -181,7 +217,35 @@ def run_case(spec):
         if r0.refused or r0.exception is not None or r0.solution is None:
             return {"violations": [], "counters": {"refused_mesh": 1}, "classes": ["refused"], "nontrivial": False}
         run_kwargs = dict(device=device, seed_solution=r0.solution)
+    probe = None
+    if spec["kind"] == "exact_budget":
+        device, why = zoo.try_build_device(spec["device"])
+        if device is None:
+            return {"violations": [], "counters": {"refused_mesh": 1}, "classes": ["refused"], "nontrivial": False}
+        R, dts = S.probe_retry_depth(spec, device)
+        if R is None or R + spec["budget_offset"] < 0:
+            return {"violations": [], "counters": {"exact_budget_premise_not_met": 1}, "classes": ["kind=exact_budget", "premise_not_met"], "nontrivial": False}
+        spec = dict(spec, options=dict(spec["options"], max_solve_retries=R + spec["budget_offset"]))
+        probe = (R, dts)
+        run_kwargs = dict(device=device)
     out = S.run_sim_case(spec, "C12", extra_listeners=[tm], post=post, **run_kwargs)
+    if probe is not None and "violations" in out and out.get("status") != "harness_error":
+        R, dts = probe
+        C = out["counters"]
+        C["exact_budget_checks"] = 1
+        sims = [s_ for s_ in tm.stages if s_["name"] == "Simulating"]
+        used = [u["dt"] for u in sims[0]["updates"] if not u.get("failed")] if sims else []
+        exc_txt = out["sample"].get("exception")
+        if spec["budget_offset"] == -1:
+            # max_solve_retries = R - 1: the worst step is answered on the last permitted retry; the run is the unconstrained run
+            if exc_txt is not None or used != dts:
+                out["violations"].append({"kind": "budget_exactly_sufficient_but_failed", "mechanism": "gave_up_before_retry_budget",
+                                          "detail": {"worst_step_needs_refusals": R, "max_solve_retries": R - 1, "exception": exc_txt, "steps_done": len(used), "steps_unconstrained": len(dts)}})
+        else:
+            # max_solve_retries = R - 2: the worst step cannot be answered within the budget; the run must raise there
+            if exc_txt is None or "converge" not in exc_txt:
+                out["violations"].append({"kind": "budget_insufficient_but_continued", "mechanism": "retry_limit_not_enforced",
+                                          "detail": {"worst_step_needs_refusals": R, "max_solve_retries": R - 2, "exception": exc_txt, "steps_done": len(used)}})
     if pre_violations and "violations" in out:
         out["violations"] = pre_violations + out["violations"]
         out.setdefault("counters", {})["options_reuse_checks"] = 1
